@@ -469,6 +469,47 @@ func TestDrive_C10(t *testing.T) {
 		})
 }
 
+// a retry (or fallback + retry) around a hedge policy: a hedge starts and wins with a failure the retry policy handles while the
+// first attempt is still running (it is cancelled as the loser); the caller's context is then cancelled, or reaches its
+// deadline, in the middle of the retry delay that follows -- the execution reports that, not anything the hedged run left
+func hedgeWinsThenCancelInDelay(rng *Rng, n int, add func(InstD, []ReqD, string)) {
+	for i := 0; i < n; i++ {
+		hd := int64(1+rng.Intn(3))*1024 + 128
+		delay := int64(4+rng.Intn(4)) * 2048
+		hp := PolD{K: "Hedge", Hedges: 1 + rng.Intn(2), HDelay: hd}
+		if rng.Bool() {
+			hp.Cancel = []CallD{{K: "Errors", Errs: []ErrD{sent(0)}}}
+		}
+		stack := []PolD{{K: "Retry", MaxRetries: int64(1 + rng.Intn(2)), Delay: delay}, hp}
+		if rng.Chance(30) {
+			stack = append([]PolD{{K: "Fallback", FBKind: "WrapErr"}}, stack...)
+		}
+		slow := FnStepD{Out: OutD{R: 1}, Dur: hd + 3072 + int64(rng.Intn(3))}
+		if rng.Bool() {
+			co := OutD{R: -5, Err: &ErrD{K: "Sent", A: 2}}
+			slow.Coop, slow.Lag = &co, int64(1+rng.Intn(5))
+		}
+		fast := FnStepD{Out: OutD{Err: &ErrD{K: "Sent", A: 0}}, Dur: 256 + int64(rng.Intn(2))*128}
+		won := hd + fast.Dur // the hedge's failure is accepted here; the retry delay runs from about this instant
+		rq := ReqD{Stack: stack, CtxKey: -1, Entry: Pick(rng, execEntries), Script: []FnStepD{slow, fast, {Out: OutD{R: 1}, Dur: 512}},
+			ExtT: won + slow.Lag + 16 + rng.I64n(delay-64), ExtKind: Pick(rng, []string{"Cancel", "Deadline"})}
+		if strings.HasSuffix(rq.Entry, "Async") && rng.Chance(40) {
+			rq.ExtKind = "AsyncCancel"
+		}
+		if strings.HasPrefix(rq.Entry, "Run") {
+			for k := range rq.Script {
+				rq.Script[k].Out.R = 0
+				if rq.Script[k].Coop != nil {
+					c0 := *rq.Script[k].Coop
+					c0.R = 0
+					rq.Script[k].Coop = &c0
+				}
+			}
+		}
+		add(InstD{}, []ReqD{rq}, "hedge-wins-then-cancel-in-delay")
+	}
+}
+
 // a retry policy with an abort condition whose budget runs out on exactly the attempt that also matches the abort condition
 // (documented: the policy still reports ExceededError), alone and inside policies that handle ErrExceeded
 func abortWhileExhausted(rng *Rng, n int, add func(InstD, []ReqD, string)) {
@@ -830,6 +871,7 @@ func TestDrive_C08(t *testing.T) {
 			}
 			cancelledHandledResult(rng, n/5, true, add)
 			preCancelled(rng, n/5, false, add)
+			hedgeWinsThenCancelInDelay(rng, n/4, add)
 			// a waiting policy OUTSIDE the retry policy, cancelled in the middle of its wait
 			for i := 0; i < n/2; i++ {
 				g := &instGen{}
